@@ -12,7 +12,8 @@ LEVEL = ("Static error discipline on every density evaluation reachable from Cha
          "collector, so a fault cannot turn the step-size statistic into 0/0 (R7, shared with C07-R7) and every divergent or successful leapfrog is registered with the collector exactly once (R8, shared with C07-R8). "
          "Does not decide value statements ('returned position is finite') or two-fault sequences."
          " Added: every options object reaching extend() is the caller's options with at most check_turning overridden (R6 on MIR); MCLMC retry bookkeeping covers the step budget (R9 = C18-R4 analysis)."
-         " Added (round 4): a function that moves the persistent state out of self puts a state back before every error exit (R11, positive control planted).")
+         " Added (round 4): a function that moves the persistent state out of self puts a state back before every error exit (R11, positive control planted)."
+         " Added (round 6): the formula kernels neither clamp an f64 nor branch on its class, so a non-finite gradient reaches the energy test (R12 = C17-K12); draw / gradient estimators of the diagonal strategy receive the same operations in every method, so a re-initialised chain does not trip the count assertion (R13 = C08-R14).")
 EXPLANATION = ("ERR classification over MIR def-use for all bodies reachable in the call graph from the Chain entry points; three-valued "
                "evaluation of the branch conditions that control the Ok / Divergence / Err constructions.")
 TRUSTED = ["rustc nightly MIR/HIR", "nutsfacts extractor", "rules/err.py", "rules/c05.py"]
